@@ -125,6 +125,15 @@ ProbeVerdict(r, prop) ==
                ELSE IF ~c.reopened THEN V(prop, "the recovered store cannot be reopened after a put")
                ELSE IF \E k \in Keys : c.gets2[k] # m1[k] THEN V(prop, "the recovered store loses data over put + reopen")
                ELSE
+               \* C14: recovery leaves every existing file exactly as it found it; the only call it
+               \* may issue besides read-only opens is the exclusive creation of the next data file
+               IF rec.modified_by_recovery # <<>>
+                    THEN V("C14", "recovery modified an existing file: " \o rec.modified_by_recovery[1])
+               ELSE IF \E i \in 1..Len(rec.recovery_calls) :
+                          LET rc == rec.recovery_calls[i]
+                          IN ~(rc.call = "create" /\ rc.kind = "data" /\ rc.excl /\ rc.append /\ ~rc.trunc)
+                    THEN V("C14", "recovery issues a call other than creating the next data file")
+               ELSE
                \* C14 across crashes: files created by recovery and by continued use
                LET new1 == Pairs(rec.after_open) \ Pairs(rec.before)
                    new2 == Pairs(c.after) \ Pairs(rec.after_open)
